@@ -188,7 +188,7 @@ def build_native_cxx(j, wd, compiler='clang++-14', sanitize=True, tag='c'):
     san = ['-fsanitize=address,undefined', '-fno-sanitize-recover=undefined'] if sanitize else []
     cc = 'clang-14' if compiler.startswith('clang') else 'gcc'
     o1 = os.path.join(wd, 'h_%s.o' % tag); o2 = os.path.join(wd, 'rt_%s.o' % tag)
-    r = sh([compiler] + std_flags(j) + ['-O1', '-g', '-DNDEBUG', '-fno-access-control' if compiler.startswith('clang') else '-fno-access-control',
+    r = sh([compiler] + std_flags(j) + ['-O1', '-g', '-DNDEBUG', '-DVF_NATIVE_BUILD', '-fno-access-control' if compiler.startswith('clang') else '-fno-access-control',
             '-I' + HDR_DIR] + j.extra_clang + san + j.defflags() + ['-c', harness_path(j), '-o', o1])
     if r.returncode != 0: return None, r.stderr[-2000:]
     r = sh([cc, '-O1', '-g', '-DVF_NATIVE', '-DVF_NATIVE_CXX'] + san + ['-c', RT_C, '-o', o2])
